@@ -179,7 +179,7 @@ def run(module_dir, module, cfg=None, workers=None, timeout=600, heap='8g', cove
     """Run TLC on module_dir/module.tla with module_dir/<cfg or module>.cfg."""
     r = Result()
     meta = common.scratch('tlcmeta_')
-    cmd = java_cmd(extra_lib=module_dir, heap=heap, deque=deque)
+    cmd = java_cmd(extra_lib=module_dir, heap=heap, deque=deque, props=['-Djava.io.tmpdir=' + meta])
     cmd += ['tlc2.TLC', '-workers', str(workers or common.NPROC), '-metadir', meta, '-noGenerateSpecTE',
             '-config', os.path.join(module_dir, (cfg or module) + ('' if (cfg or module).endswith('.cfg') else '.cfg'))]
     if not deadlock:
@@ -225,8 +225,12 @@ def run(module_dir, module, cfg=None, workers=None, timeout=600, heap='8g', cove
 
 
 def sany(path):
-    cmd = java_cmd(extra_lib=os.path.dirname(path)) + ['tla2sany.SANY', path]
-    p = subprocess.run(cmd, stdout=subprocess.PIPE, stderr=subprocess.STDOUT, cwd=os.path.dirname(path))
+    tmp = common.scratch('sany_')
+    try:
+        cmd = java_cmd(extra_lib=os.path.dirname(path), props=['-Djava.io.tmpdir=' + tmp]) + ['tla2sany.SANY', path]
+        p = subprocess.run(cmd, stdout=subprocess.PIPE, stderr=subprocess.STDOUT, cwd=os.path.dirname(path))
+    finally:
+        common.rm(tmp)
     out = p.stdout.decode('utf-8', 'replace')
     ok = p.returncode == 0 and 'Semantic errors' not in out and 'Parse Error' not in out and 'Fatal' not in out \
         and '***' not in out.replace('****** SANY2', '')
